@@ -31,6 +31,41 @@ use tokio::sync::OnceCell;
 /// Unique counter for spill directory names to avoid conflicts between concurrent operators
 static SPILL_COUNTER: AtomicU64 = AtomicU64::new(0);
 
+/// Create a spill directory that belongs to ONE operator execution: new, empty
+/// and never handed out twice — not to another operator, another process
+/// sharing `spill_path` (the default is one directory under $TMPDIR), or a
+/// later process.
+///
+/// The name used to be `<kind>_<partition>_<per-process counter>` created with
+/// `create_dir_all`, which happily "creates" a directory that already exists.
+/// Every process counts from 0, so two processes spilling at the same time —
+/// or one process after another that was killed or failed before its cleanup
+/// — used the SAME directory, and the join's `append_to_parquet` appended to
+/// whatever `build_N.parquet` / `probe_N.parquet` it found there: foreign rows
+/// in the answer (every row twice when the other run was the same query).
+/// The process id goes into the name, and `create_dir` (which fails on an
+/// existing directory) makes the claim atomic; a name that is taken — a stale
+/// directory of a dead process whose pid has been reused — is skipped.
+fn create_spill_dir(config: &ExecutionConfig, kind: &str) -> Result<PathBuf> {
+    config.ensure_spill_dir()?;
+    loop {
+        let spill_id = SPILL_COUNTER.fetch_add(1, Ordering::Relaxed);
+        let dir = config
+            .spill_path
+            .join(format!("{}_{}_{}", kind, std::process::id(), spill_id));
+        match std::fs::create_dir(&dir) {
+            Ok(()) => return Ok(dir),
+            Err(e) if e.kind() == std::io::ErrorKind::AlreadyExists => continue,
+            Err(e) => {
+                return Err(QueryError::Execution(format!(
+                    "Failed to create spill directory {:?}: {}",
+                    dir, e
+                )))
+            }
+        }
+    }
+}
+
 /// Number of hash partitions for spilling
 const NUM_PARTITIONS: usize = 64;
 
@@ -420,13 +455,7 @@ impl SpillableHashJoinExec {
         };
         let build_batches = unify_spill_batches(build_batches, &build_side_schema)?;
 
-        self.config.ensure_spill_dir()?;
-
-        let spill_id = SPILL_COUNTER.fetch_add(1, Ordering::Relaxed);
-        let spill_dir = self.config.spill_path.join(format!("join_0_{}", spill_id));
-        std::fs::create_dir_all(&spill_dir).map_err(|e| {
-            QueryError::Execution(format!("Failed to create spill directory: {}", e))
-        })?;
+        let spill_dir = create_spill_dir(&self.config, "join")?;
 
         let (on_left, on_right): (Vec<_>, Vec<_>) = self.on.iter().cloned().unzip();
         let build_keys = if swapped { &on_right } else { &on_left };
@@ -1122,16 +1151,7 @@ impl PhysicalOperator for SpillableHashAggregateExec {
 
         // Data exceeds memory — use spillable aggregation path
         let all_batches = unify_spill_batches(all_batches, &self.input.schema())?;
-        self.config.ensure_spill_dir()?;
-
-        let spill_id = SPILL_COUNTER.fetch_add(1, Ordering::Relaxed);
-        let spill_dir = self
-            .config
-            .spill_path
-            .join(format!("agg_{}_{}", partition, spill_id));
-        std::fs::create_dir_all(&spill_dir).map_err(|e| {
-            QueryError::Execution(format!("Failed to create spill directory: {}", e))
-        })?;
+        let spill_dir = create_spill_dir(&self.config, "agg")?;
 
         if std::env::var("QE_SPILL_DEBUG").is_ok() {
             eprintln!(
@@ -1432,16 +1452,7 @@ impl PhysicalOperator for ExternalSortExec {
         }
 
         // Data exceeds memory — use external sort with spilling
-        self.config.ensure_spill_dir()?;
-
-        let spill_id = SPILL_COUNTER.fetch_add(1, Ordering::Relaxed);
-        let spill_dir = self
-            .config
-            .spill_path
-            .join(format!("sort_{}_{}", partition, spill_id));
-        std::fs::create_dir_all(&spill_dir).map_err(|e| {
-            QueryError::Execution(format!("Failed to create spill directory: {}", e))
-        })?;
+        let spill_dir = create_spill_dir(&self.config, "sort")?;
 
         // Same normalization as the in-memory sort: every batch of a run (and
         // every run of a merge) must share one schema.
@@ -2442,6 +2453,41 @@ fn gather_column(
 #[cfg(test)]
 mod tests {
     use super::*;
+
+    /// A spill directory is never one that already exists — a leftover of
+    /// another (dead) process must not be adopted, files and all.
+    #[test]
+    fn spill_dir_is_always_fresh() {
+        let base = std::env::temp_dir().join(format!(
+            "qe_spill_dir_test_{}_{}",
+            std::process::id(),
+            SPILL_COUNTER.fetch_add(1, Ordering::Relaxed)
+        ));
+        let config = ExecutionConfig::default().with_spill_path(base.clone());
+        // Leftovers under every name the next calls could pick (other tests
+        // bump the counter concurrently, hence a range), old scheme included.
+        let next = SPILL_COUNTER.load(Ordering::Relaxed);
+        let mut stale = Vec::new();
+        for id in next..next + 200 {
+            for name in [
+                format!("join_{}_{}", std::process::id(), id),
+                format!("join_0_{}", id),
+            ] {
+                let dir = base.join(name);
+                std::fs::create_dir_all(&dir).unwrap();
+                std::fs::write(dir.join("build_0.parquet"), b"stale").unwrap();
+                stale.push(dir);
+            }
+        }
+        let a = create_spill_dir(&config, "join").unwrap();
+        let b = create_spill_dir(&config, "join").unwrap();
+        assert_ne!(a, b);
+        for dir in [&a, &b] {
+            assert!(!stale.contains(dir), "adopted a stale directory: {dir:?}");
+            assert_eq!(std::fs::read_dir(dir).unwrap().count(), 0);
+        }
+        let _ = std::fs::remove_dir_all(&base);
+    }
 
     #[test]
     fn test_estimate_batch_size() {
